@@ -290,6 +290,66 @@ pub fn execute_c18(case: &Case, cov: &mut Cov) -> Option<Violation> {
     result
 }
 
+/// A single world of profile `p` executed with every event on one of three threads (the calling thread
+/// and two helpers), chosen by the event index. Used by every profile for a fraction of its runs.
+pub fn execute_hopping(case: &Case, p: P, cov: &mut Cov) -> Option<Violation> {
+    let (to_a, rx_a) = mpsc::sync_channel::<Option<(SendWorld, Ev, usize)>>(0);
+    let (to_b, rx_b) = mpsc::sync_channel::<Option<(SendWorld, Ev, usize)>>(0);
+    let (back_tx, back_rx) = mpsc::sync_channel::<(SendWorld, Result<(), Violation>, Cov)>(0);
+    let mut hs = vec![];
+    for rx in [rx_a, rx_b] {
+        let back = back_tx.clone();
+        hs.push(std::thread::spawn(move || {
+            while let Ok(Some((mut sw, ev, gi))) = rx.recv() {
+                let mut c = Cov::new();
+                sw.0.ev_idx = gi;
+                let r = sw.0.apply(&ev, &mut c);
+                if back.send((sw, r, c)).is_err() {
+                    break;
+                }
+            }
+        }));
+    }
+    let mut w = Some(SendWorld(World::new(p)));
+    let mut result = None;
+    let mut last = 9usize;
+    for (i, ev) in case.events.iter().enumerate() {
+        // thread of event i: a fixed, index-derived pattern with runs of different lengths
+        let t = ((i * 2654435761usize) >> 7) % 3;
+        if t != last && last != 9 {
+            cov.hit("fault.world_moved_to_another_thread");
+        }
+        last = t;
+        let mut sw = w.take().unwrap();
+        let r = if t == 2 {
+            sw.0.ev_idx = i;
+            let r = sw.0.apply(ev, cov);
+            w = Some(sw);
+            r
+        } else {
+            let tx = if t == 0 { &to_a } else { &to_b };
+            tx.send(Some((sw, ev.clone(), i))).expect("helper alive");
+            let (sw, r, c) = back_rx.recv().expect("helper alive");
+            cov.merge(&c);
+            w = Some(sw);
+            r
+        };
+        if let Err(v) = r {
+            result = Some(v);
+            break;
+        }
+    }
+    let _ = to_a.send(None);
+    let _ = to_b.send(None);
+    drop(back_tx);
+    // the world is dropped here, on the calling thread
+    drop(w);
+    for h in hs {
+        let _ = h.join();
+    }
+    result
+}
+
 // ---------------------------------------------------------------------------------- generator
 
 pub fn gen_c18(rng: &mut Prng, run: u64, t: &Tier) -> Vec<Ev> {
@@ -298,9 +358,13 @@ pub fn gen_c18(rng: &mut Prng, run: u64, t: &Tier) -> Vec<Ev> {
     let mut lists: Vec<Vec<Ev>> = vec![];
     for w in 0..nworlds {
         let sub = run.wrapping_mul(7).wrapping_add(w as u64);
-        let mut l = match rng.below(5) {
+        let mut l = match rng.below(7) {
             0 => gen::gen_c01(rng, sub, t),
             1 => gen::gen_c11(rng, sub, t),
+            // hostile inputs and failing setups (error paths leave no residue for the next session,
+            // on this thread or any other)
+            5 => gen::gen_c10(rng, sub, t),
+            6 => gen::gen_c13(rng, sub, t),
             _ => {
                 let o = gen::HistOpts {
                     sessions: rng.range(1, 2),
